@@ -611,7 +611,8 @@ class SymChoiceStr(_str):
         return not self.__eq__(o)
 
     def __hash__(self):
-        raise HarnessGap("hash() of a symbolic choice string")
+        # looking the string up in a set/dict fixes the alternative (a fork), then hashes the plain value
+        return hash(self.resolve())
 
     def __bool__(self):
         return True
